@@ -103,16 +103,16 @@ type limNode struct {
 
 type limVisitor struct{ n int }
 
-func (v *limVisitor) OnNull() error                          { v.n++; return nil }
-func (v *limVisitor) OnBool(bool) error                      { v.n++; return nil }
-func (v *limVisitor) OnString(string) error                  { v.n++; return nil }
-func (v *limVisitor) OnInt64(int64, json.Number) error       { v.n++; return nil }
-func (v *limVisitor) OnFloat64(float64, json.Number) error   { v.n++; return nil }
-func (v *limVisitor) OnObjectBegin(int) error                { v.n++; return nil }
-func (v *limVisitor) OnObjectKey(string) error               { v.n++; return nil }
-func (v *limVisitor) OnObjectEnd() error                     { v.n++; return nil }
-func (v *limVisitor) OnArrayBegin(int) error                 { v.n++; return nil }
-func (v *limVisitor) OnArrayEnd() error                      { v.n++; return nil }
+func (v *limVisitor) OnNull() error                        { v.n++; return nil }
+func (v *limVisitor) OnBool(bool) error                    { v.n++; return nil }
+func (v *limVisitor) OnString(string) error                { v.n++; return nil }
+func (v *limVisitor) OnInt64(int64, json.Number) error     { v.n++; return nil }
+func (v *limVisitor) OnFloat64(float64, json.Number) error { v.n++; return nil }
+func (v *limVisitor) OnObjectBegin(int) error              { v.n++; return nil }
+func (v *limVisitor) OnObjectKey(string) error             { v.n++; return nil }
+func (v *limVisitor) OnObjectEnd() error                   { v.n++; return nil }
+func (v *limVisitor) OnArrayBegin(int) error               { v.n++; return nil }
+func (v *limVisitor) OnArrayEnd() error                    { v.n++; return nil }
 
 // monitor for error values with a larger bound than the decode replays use: limit paths excerpt the input
 func errWFBounded(err error, inputLen int) (string, int) {
